@@ -207,7 +207,50 @@ func CorruptDNS(t *rapid.T, b []byte) ([]byte, string) {
 	if len(b) < 12 {
 		return b, "short"
 	}
-	switch rapid.IntRange(0, 6).Draw(t, "dnsCorrupt") {
+	switch rapid.IntRange(0, 7).Draw(t, "dnsCorrupt") {
+	case 7: // RDLENGTH of a record (preferably the last one) set to a few bytes, the message ending right behind them
+		skipName := func(pos int) int {
+			for pos < len(b) {
+				switch l := int(b[pos]); {
+				case l == 0:
+					return pos + 1
+				case l&0xc0 == 0xc0:
+					return pos + 2
+				case l&0xc0 != 0:
+					return -1
+				default:
+					pos += 1 + l
+				}
+			}
+			return -1
+		}
+		pos := 12
+		for q := int(b[4])<<8 | int(b[5]); q > 0 && pos > 0; q-- {
+			if pos = skipName(pos); pos > 0 {
+				pos += 4
+			}
+		}
+		var rdl []int // offsets of the RDLENGTH fields
+		for pos > 0 && pos < len(b) {
+			if pos = skipName(pos); pos < 0 || pos+10 > len(b) {
+				break
+			}
+			rdl = append(rdl, pos+8)
+			pos += 10 + (int(b[pos+8])<<8 | int(b[pos+9]))
+		}
+		if len(rdl) == 0 {
+			return b, "none"
+		}
+		at := rdl[len(rdl)-1]
+		if rapid.IntRange(0, 3).Draw(t, "rdlWhich") == 0 {
+			at = rdl[rapid.IntRange(0, len(rdl)-1).Draw(t, "rdlIdx")]
+		}
+		v := rapid.SampledFrom([]int{0, 1, 2, 3, 5}).Draw(t, "rdlv")
+		b[at], b[at+1] = 0, byte(v)
+		if at == rdl[len(rdl)-1] && at+2+v <= len(b) && rapid.IntRange(0, 3).Draw(t, "rdlCut") != 0 {
+			b = b[:at+2+v]
+		}
+		return b, "rdlength"
 	case 0: // section count
 		pos := 4 + 2*rapid.IntRange(0, 3).Draw(t, "cnt")
 		v := rapid.SampledFrom([]uint16{0, 1, 2, 255, 65535}).Draw(t, "cntv")
